@@ -2,7 +2,7 @@
 import json, os, re, copy
 import vlib, pipelib
 
-MC_CFGS = ["A", "Af", "B", "C", "D", "E", "F", "N"]
+MC_CFGS = ["A", "Af", "B", "C", "D", "E", "F", "N", "G"]
 
 
 def model_check(ctx, cfgs):
